@@ -13,7 +13,7 @@ from .facts import (op_local, op_place, is_place, backward_slice, copy_chain_sou
                     proj_names, field_path)
 from . import lib
 
-CTOR = (r'^tiny_keccak::Sha3::v\d+$', r'^tiny_keccak::Kmac::v\d+$', r'^tiny_keccak::(Shake|Keccak|CShake)::v\d+$')
+CTOR = (r'^tiny_keccak::Sha3::v\d+$', r'^tiny_keccak::Kmac::v\d+$', r'^(tiny_keccak|cosmian_crypto_core)::(Shake|Keccak|CShake)::v\d+$')
 UPDATE = (r'Hasher::update$',)
 FINALIZE = (r'Hasher::finalize$',)
 DEREFS = (r'^std::ops::Deref::deref$', r'^std::ops::DerefMut::deref_mut$', r'^std::convert::AsRef::as_ref$',
